@@ -176,6 +176,9 @@ pub struct Captured {
     pub b: u64,
     pub fields: u8, // bit 0 registers, bit 1 b, bit 2 buildhasher
     pub name_ok: bool,
+    /// record only HOW MANY registers are written (for precisions whose 2^b registers cannot be walked symbolically)
+    pub len_only: bool,
+    pub seq_len: usize,
 }
 pub struct Cap<'a>(pub &'a mut Captured);
 pub struct CapStruct<'a>(&'a mut Captured);
@@ -281,6 +284,31 @@ impl<'a> Serializer for FieldSer<'a> {
             _ => Err(VErr),
         }
     }
+    fn collect_seq<I>(self, iter: I) -> Result<(), VErr>
+    where
+        I: IntoIterator,
+        <I as IntoIterator>::Item: Serialize,
+    {
+        let it = iter.into_iter();
+        match self {
+            FieldSer::Regs(c) if c.len_only => {
+                // a slice iterator reports its exact length
+                let (lo, hi) = it.size_hint();
+                if hi != Some(lo) {
+                    return Err(VErr);
+                }
+                c.seq_len = lo;
+                Ok(())
+            }
+            other => {
+                let mut seq = other.serialize_seq(None)?;
+                for x in it {
+                    seq.serialize_element(&x)?;
+                }
+                SerializeSeq::end(seq)
+            }
+        }
+    }
     fn serialize_u8(self, v: u8) -> Result<(), VErr> {
         match self {
             FieldSer::Regs(c) => {
@@ -358,3 +386,21 @@ harness!(serde_roundtrip_b4, unwind 19, {
     }
 });
 
+
+/// Serialize side for EVERY precision: the three fields are written, `b` is the sketch's precision and all 2^b registers are
+/// handed to the serializer (their number is recorded, the contents are not walked). Together with the engine-M unit that
+/// decides the validation of `visit_map` for every (b, register count), this is the round trip's acceptance for b up to 18.
+harness!(serde_ser_fields_all_b, unwind 3, {
+    let b = any_usize();
+    asm!(b >= 4 && b <= 18);
+    let h = H::with_hash(b, IdBH);
+    let mut cap = Captured::default();
+    cap.len_only = true;
+    let sr = h.serialize(Cap(&mut cap));
+    chk!("serialize_ok", sr.is_ok());
+    chk!("serialize_three_fields", cap.fields == 7 && cap.name_ok);
+    chk!("serialize_b_is_precision", cap.b == b as u64);
+    chk!("serialize_all_registers", cap.seq_len == 1usize << b);
+    cov!("b18", b == 18);
+    cov!("b4", b == 4);
+});
